@@ -357,9 +357,33 @@ namespace {
         }
         ops = front;
       }
+      // directed scenario: an actor needs a conversion between already-known types before and after another actor registers it
+      bool force_known = false;
+      if (plan.chance(200)) {
+        J front = J::array();
+        const int c = 3 + int(plan.below(2));
+        const int x = int(plan.below(uint64_t(T)));
+        const int y = (x + 1 + int(plan.below(uint64_t(T - 1)))) % T;
+        auto mk = [&](int a, const char *k) {
+          J op = J::object();
+          op["a"] = J(a);
+          op["k"] = J(k);
+          op["c"] = J(c);
+          return op;
+        };
+        front.push(mk(x, "needconv"));
+        front.push(mk(y, "conv"));
+        front.push(mk(x, "needconv"));
+        front.push(mk(y, "needconv"));
+        for (size_t i = 0; i < ops.size(); ++i) {
+          front.push(ops[i]);
+        }
+        ops = front;
+        force_known = plan.chance(800);
+      }
       // conversions in the reverse direction registered before the actors start: ConvA, ConvB and ConvC are then all
       // "known" to the conversion system, and registering conversions 1-4 later adds no new type
-      p["known_types"] = J(plan.chance(500));
+      p["known_types"] = J(force_known || plan.chance(500));
       // the engine may be created (and used a little) by a short-lived thread that has ended before the
       // actors start: actors may then run on recycled thread ids / thread control blocks
       p["creator"] = J(int(plan.below(3))); // 0 main, 1 temporary thread, 2 temporary thread that also declares x, y, z
